@@ -6,7 +6,7 @@ cd /repo
 declare -A PROPS=(
  [b7c1d78]="C11" [a61ddec]="C07" [09f5995]="C07" [4f2ca0c]="C01" [5b41425]="C03" [5693425]="C13"
  [933faa5]="C16" [2a5a0d8]="C06 C12" [fcc663a]="C06 C12" [6fc4cbb]="C19" [fddc6bd]="C12" [72bbdc6]="C12"
- [4db78fb]="C12" [f40ecd0]="C19" [30335e9]="C08"
+ [4db78fb]="C12" [f40ecd0]="C19" [30335e9]="C08" [4aa31be]="C19"
 )
 V=$(git log --format='%h %s' | grep "search from a vertex that is not in the graph" | cut -d' ' -f1)
 PROPS[$V]="C12"
